@@ -8,8 +8,8 @@ def thorough_extras(R, pid):
     lean = os.path.join(VERIF, "lemmas", "L1.lean")
     if pid in ("C16",) and os.path.exists(lean):
         try:
-            r = subprocess.run(["lean", lean], capture_output=True, text=True, timeout=900, cwd="/opt/veriftools/mathlib4")
-            ok = r.returncode == 0 and "error" not in r.stdout.lower()
+            r = subprocess.run(["lake", "env", "lean", lean], capture_output=True, text=True, timeout=1200, cwd="/opt/veriftools/mathlib4")
+            ok = r.returncode == 0 and "error" not in (r.stdout + r.stderr).lower()
             R.obligation("L.L1.sorted-arrangements-coincide", "lemma", "discharged" if ok else "refuted", "LEAN", "lean4", 0.0,
                          "two sorted arrangements of one finite multiset are equal (Mathlib List.Perm.eq_of_pairwise')", lean)
             if not ok:
